@@ -24,7 +24,8 @@ from .engine_p import Session
 
 N = {"quick": (16000, 3000), "thorough": (160000, 30000)}       # (scripted histories, observational runs)
 gprops.G_PROPS["C04"] = dict(oracles=["c04_obs"], families=scenario.FAMILIES, modes=scenario.MODES,
-                             n_quick=N["quick"][1], n_thorough=N["thorough"][1], opts={"p_no_faults": 0.6})
+                             n_quick=N["quick"][1], n_thorough=N["thorough"][1],
+                             opts={"p_no_faults": 0.6, "small_pop_p": 0.25, "extreme_p": 0.0, "extreme_every": 3})
 
 IDENTITY_TASK = {"cls": "SimTask", "family": "scripted", "vars": [{"type": "cont", "name": "c", "lb": -1e9, "ub": 1e9}],
                  "objective": {"family": "linear", "w": [1.0], "const": 0.0}}
@@ -149,6 +150,8 @@ def gen_history(seed, tier):
             pe = None
             if rp.random() < 0.5:
                 pe = {"patience": rp.choice([1, 2, 3, 4]), "min_delta": rp.choice([1e-4, 1e-2, 1.0, delta * 2])}
+            if es is not None and rp.random() < 0.4:
+                pe = "shared"      # the very same EarlyStopping object as the observed configuration's
             prior.append({"max_cycles": rp.choice([1, 2, L, L + 3, max_cycles, max_cycles + 2]),
                           "fitness_error": rp.choice([None, None, 0.0, min(finite), max(finite) + 1.0]),
                           "early_stopping": pe, "reconfigure": rp.random() < 0.5})
@@ -186,7 +189,8 @@ def run_scripted(desc):
         opt = cl["ScriptedOptimizer"](cfg)
         for i, pr in enumerate(desc.get("prior") or []):
             # earlier runs on the same instance, ended by whatever criterion their configuration had
-            pes = pv.EarlyStopping(**pr["early_stopping"]) if pr["early_stopping"] else None
+            pes = es if pr["early_stopping"] == "shared" else \
+                (pv.EarlyStopping(**pr["early_stopping"]) if pr["early_stopping"] else None)
             pcfg = cl["ScriptedConfig"](population_size=len(desc["init"]), max_cycles=pr["max_cycles"],
                                         fitness_error=pr["fitness_error"], early_stopping=pes, init=desc["init"],
                                         script=script, table=table)
